@@ -89,6 +89,8 @@ def slow_reports(impl, result):
         shutil.rmtree(d, ignore_errors=True)
 
 def run(chk):
+    _impl0, _ = build_impl()
+    _rt = start_realtime(_impl0) if _impl0 is not None else None
     import threading
     impl0, _ = build_impl()
     slow = {}
@@ -178,6 +180,7 @@ def run(chk):
                           "input: 5 C 10.0.0.1 4000 10.0.0.2 6667 / 17 C 2001:db8::7 65535 10.0.0.2 6667 / 17 P :+x acct pw / -1 ? stats / (10.6 s pause) / -1 ? stats / -1 ? stats2 / -1 ? config / 5 H / 17 D\n\noutput:\n%s\n\nstderr:\n%s" % ("\n".join(slow.get("lines", [])), slow.get("err")), "slow-stats")
         else:
             chk.cov["traces_validated_against_impl"] += 1
+    if _rt is not None: finish_realtime(chk, _rt, 'server channel: ')
     chk.cov["rule"] = "every stdout line of every run (banner included) is matched against the IAuth message grammar; every client-directed message is compared with the announced id / address (as a 128-bit value, IPv4-compatible canonicalised to IPv4-mapped) / port; all textual address forms; logs sections routing to files and '? nosuchrequest', '? config', malformed X, failed reload mixed in; distinct = distinct output traces"
 
 def run_failed_reload(impl, scn):
